@@ -91,6 +91,16 @@ def cases_batch(tier):
                 pair = [e, ALPHA[i]] if order else [ALPHA[i], e]
                 for w in (WORLDS[0], WORLDS[4], (2.0, False, "default", None), (1.0, False, "default", None)):
                     yield (w, B.dumps(pair))
+    # entries whose "jsonrpc" member has an unexpected value (only its presence matters), next to ordinary entries and to each other
+    odd = [B.obj(jv, 70 + n, m, pr) for n, jv in enumerate(("1.0", "two", "", 1, True, None, [2], {"v": 2})) for m, pr in (("pair", [1, 2]), ("boom", []))]
+    for e in odd:
+        for i in QUICK_ALPHA:
+            for order in (0, 1):
+                pair = [e, ALPHA[i]] if order else [ALPHA[i], e]
+                for w in (WORLDS[0], WORLDS[4]):
+                    yield (w, B.dumps(pair))
+        for w in (WORLDS[0], WORLDS[4]):
+            yield (w, B.dumps([odd[0], e, odd[-1]]))
     # a callable leaving through SystemExit, next to ordinary entries (default dispatch only)
     for sx in SYSEXIT:
         for i in QUICK_ALPHA:
